@@ -77,6 +77,11 @@ def plant(r, f):
         f['variables']['broken_var'] = r.choice(BAD_VALUE)
     if r.random() < 0.2:
         f['transforms'] = list(f['transforms']) + [('field.description', r.choice(BAD_VALUE))]
+    if r.random() < 0.25:
+        # a well-formed transform that assigns a custom field: the statement line may have no captured columns at all
+        f['transforms'] = list(f['transforms']) + [r.choice([('field.channel', 'extract(field.description, "([A-Z]+)")'),
+                                                             ('field.memo', 'trim(field.description)'), ('field.type', '"x"'),
+                                                             ('field.code', 'uppercase(field.code)'), ('field.memo', 'field.type')])]
     return f, failing
 
 
